@@ -142,6 +142,18 @@ def unrepresentable_cases():
 
     @st.composite
     def cases(draw):
+        if draw(st.integers(0, 3)) == 0:
+            # a FaMa relation carrying two <cardinality> elements: whatever the reader makes of it, an accepted
+            # document must come back as a proper tree
+            import re
+            model = draw(S.model_specs(S.FAMA, 3, 8))
+            text, _ = EF.emit_fama(draw, model)
+            cards = list(re.finditer(r"<cardinality[^>]*/>", text))
+            if cards:
+                m_ = draw(st.sampled_from(cards))
+                extra = f'<cardinality min="{draw(st.integers(0, 3))}" max="{draw(st.integers(3, 5))}"/>'
+                text = text[:m_.end()] + extra + text[m_.end():]
+            return {"reader": "fama", "source": "emitter", "model": None, "text": text, "odd": True}
         c = draw(c09.unrepresentable())
         return {"reader": c["format"], "source": "emitter", "model": None, "text": c["text"], "odd": True}
     return cases()
